@@ -139,7 +139,7 @@ func instrument(name string, data []byte) ([]byte, int, error) {
 	return buf.Bytes(), in.sites, nil
 }
 
-type instr struct{ sites int }
+type instr struct{ sites, tmp int }
 
 func yieldStmt() ast.Stmt {
 	return &ast.ExprStmt{X: &ast.CallExpr{Fun: &ast.SelectorExpr{X: ast.NewIdent("verifsync"), Sel: ast.NewIdent("Point")}}}
@@ -175,13 +175,50 @@ func (in *instr) list(list []ast.Stmt) []ast.Stmt {
 			}}})
 			continue
 		}
+		if d, ok := st.(*ast.DeferStmt); ok && isPut(d.Call) {
+			// defer pool.Put(x): the argument is evaluated now, as defer
+			// does; when the deferred call runs it is bracketed by yields,
+			// so that another task can take the released object while this
+			// one is still on its way out (use after release).
+			in.tmp++
+			name := fmt.Sprintf("verifDeferArg%d", in.tmp)
+			call := *d.Call
+			arg := call.Args[0]
+			call.Args = []ast.Expr{ast.NewIdent(name)}
+			out = append(out,
+				&ast.AssignStmt{Lhs: []ast.Expr{ast.NewIdent(name)}, Tok: token.DEFINE, Rhs: []ast.Expr{arg}},
+				&ast.DeferStmt{Call: &ast.CallExpr{Fun: &ast.FuncLit{
+					Type: &ast.FuncType{Params: &ast.FieldList{}},
+					Body: &ast.BlockStmt{List: []ast.Stmt{yieldStmt(), &ast.ExprStmt{X: &call}, yieldStmt()}},
+				}}})
+			in.sites++
+			continue
+		}
 		if in.header(st) {
 			out = append(out, yieldStmt())
 			in.sites++
 		}
 		out = append(out, st)
+		if es, ok := st.(*ast.ExprStmt); ok {
+			if c, ok := es.X.(*ast.CallExpr); ok && isPut(c) {
+				// ... and a yield after a plain Put, for the same reason.
+				out = append(out, yieldStmt())
+			}
+		}
 	}
 	return out
+}
+
+// isPut recognises x.Put(v) on a value (sync.Pool and look-alikes).
+func isPut(c *ast.CallExpr) bool {
+	sel, ok := c.Fun.(*ast.SelectorExpr)
+	if !ok || sel.Sel.Name != "Put" || len(c.Args) != 1 {
+		return false
+	}
+	if id, ok := sel.X.(*ast.Ident); ok && isPkgName(id.Name) {
+		return false
+	}
+	return true
 }
 
 func callStmt(name string) ast.Stmt {
